@@ -39,8 +39,12 @@ def replay(body):
     frame = (np.array(a['frame_ints'], dtype=np.float64) / a['one']).astype(np.float32)
     run = cl.run_fast if a['method'] == 'fast' else cl.run_full
     try:
-        outs = run(pattern, frame, a['peaks'])
-        probs = check_oracle(pattern, frame, a['peaks'], a['method'], outs)
+        if 'variant' in a:
+            v = a['variant']
+            probs = run_variant(pattern, frame, a['peaks'], a['method'], v['crop_function'], v['upsample'], v['bc'], v['prefill'])
+        else:
+            outs = run(pattern, frame, a['peaks'])
+            probs = check_oracle(pattern, frame, a['peaks'], a['method'], outs)
     except Exception as e:  # noqa
         probs = ['raised %s: %s' % (type(e).__name__, e)]
     print(json.dumps({'replayed': {k: a[k] for k in ('pattern', 'peaks', 'method')}, 'failure_now': probs}, indent=1, default=str))
@@ -48,6 +52,27 @@ def replay(body):
         print('VIOLATION property=C03 replay=(given)')
         return 1
     return 0
+
+
+def run_variant(pattern, frame, peaks, method, cf=None, ups=False, bc=None, prefill=False):
+    """one call of the stand-alone kernel with the given crop function ('numba' / 'slicing' / None = default), upsampling setting, number of
+    crop buffers, and (prefill) crop buffers / frame buffer that have been used for another frame before; returns the problems"""
+    from libertem_blobfinder.base import correlation as blc
+    fn = {None: None, 'numba': blc.crop_disks_from_frame, 'slicing': blc.crop_disks_from_frame_slicing}[cf]
+    c = pattern.get_crop_size()
+    kw = {}
+    if method == 'fast':
+        bufs = np.zeros((bc or len(peaks), 2 * c, 2 * c), dtype=np.float32)
+        if prefill:
+            other = ((np.arange(frame.size, dtype=np.float32).reshape(frame.shape) * 5.0) % 11.0 + 3.0).astype(np.float32)
+            cl.run_fast(pattern, other, peaks, crop_function=fn, crop_bufs=bufs)
+        outs = cl.run_fast(pattern, frame, peaks, crop_function=fn, upsample=ups, crop_bufs=bufs)
+    else:
+        fb = np.zeros(frame.shape, dtype=np.float32)
+        if prefill:
+            fb[:] = 4.25
+        outs = cl.run_full(pattern, frame, peaks, bc=bc, crop_function=fn, upsample=ups, frame_buf=fb)
+    return check_oracle(pattern, frame, peaks, method, outs, upsampled=bool(ups))
 
 
 def gen_cases(ctx, n, smax, cmax):
@@ -153,6 +178,33 @@ def run(ctx):
             ctx.violation('input', fail, {'kind': 'input', 'call': 'process_frames_%s' % method, 'args': {'batch': {'desc_built': mk(r1), 'desc_now': desc_now, 'ints': ints.tolist(),
                           'baseline': base, 'dtype': dt, 'peaks': [list(map(int, q)) for q in peaks], 'method': method}}, 'failure': fail})
             break
+    # (S3) both crop functions, upsampling on (the definitions of centre, height and elevation do not change), one crop buffer for several
+    # peaks, buffers used before; tall, wide and square frames with most peaks on the border
+    for k in range(ctx.n(60, 500)):
+        pattern, desc = cl.rand_pattern(rng, cmax=5)
+        c = pattern.get_crop_size()
+        a, b = int(rng.integers(max(4, c), 20)), int(rng.integers(1, 2 * c + 6))
+        fy, fx = [(a + b, a), (a, a + b), (a, a)][k % 3]
+        ints, kind = cl.rand_frame(rng, fy, fx, one=1)
+        frame = ints.astype(np.float32)
+        peaks = cl.rand_peaks(rng, fy, fx, c, int(rng.integers(1, 4)), where='border') + cl.rand_peaks(rng, fy, fx, c, int(rng.integers(1, 3)))
+        peaks = [peaks[i] for i in rng.permutation(len(peaks))]
+        method = 'fast' if k % 2 == 0 else 'full'
+        cf = [None, 'numba', 'slicing', 'slicing'][int(rng.integers(0, 4))]
+        ups = [False, True, 4, False][(k // 2) % 4]
+        bc = int(rng.choice([1, 1, 2, len(peaks)]))
+        prefill = bool(rng.integers(0, 2))
+        try:
+            probs = run_variant(pattern, frame, peaks, method, cf, ups, bc, prefill)
+        except Exception as e:  # noqa
+            probs = ['raised %s: %s' % (type(e).__name__, e)]
+        ctx.count(len(peaks), key=('variant', json.dumps(desc)[:160], fy, fx, tuple(peaks), method, cf, ups, bc, prefill))
+        ctx.hist('variant: crop function / upsample', '%s/%s' % (cf, ups))
+        if probs:
+            ctx.violation('input', 'process_frame_%s (crop function %s, upsample=%s, %d crop buffer(s)%s, frame %dx%d) output differs from its definition: %s' % (
+                method, cf, ups, bc, ', buffers used before' if prefill else '', fy, fx, probs[0]),
+                case_replay(desc, ints, 1, peaks, method, probs, extra={'variant': {'crop_function': cf, 'upsample': ups, 'bc': bc, 'prefill': prefill}}))
+            break
     ctx.extra['oracle_frames'] = nS
     ctx.run_modes()
     return ctx.finish(
@@ -163,4 +215,4 @@ def run(ctx):
                     'patterns/peaks the implementation processed; oracle = definitions evaluated directly in float64 without FFT.',
         rule='(K) random frames 3..12 (all parities, non-square), 6 frame kinds, 5 pattern classes with crop size 2..4, 1..3 peaks inside/border/outside, '
              'fast and full alternating, random buffer counts; distinct by (pattern, frame, peak, method). (S) frames up to 24, crop size up to 6, '
-             'integer and real-valued data.')
+             'integer and real-valued data; (S3) both crop functions, upsampling on/off, 1..n crop buffers, used buffers, tall/wide frames with border peaks.')
